@@ -146,7 +146,7 @@ Example ex_c10_alloc : fst (idc_next idc_new) = 2%N /\
   fst (idc_next (idc_free (snd (idc_next (snd (idc_next idc_new)))) 2)) = 2%N.
 Proof. vm_compute. split; reflexivity. Qed.
 
-(* FINDING (model level).  When one batch names the same id twice -- Shard.UpdatePoints does not
+(* FINDING (predicted by the model, then reproduced on the real shard: see the report).  When one batch names the same id twice -- Shard.UpdatePoints does not
    reject a request that lists a point twice -- the classification sees the vector store
    before any update of the batch is applied: "set the vector, then remove it" is classified
    update + delete, the node is deleted and then RE-INSERTED with the first vector.  The graph
